@@ -39,11 +39,12 @@ Definition sync_waits (tr : trace) : Prop :=
     (forall k, (i < k < j)%nat -> ~ at_ tr k w is_sync_begin) ->
     forall r s, open_at tr r s i -> exists b, (i < b < j)%nat /\ at_ tr b r is_runlock0.
 
-(** every disposal is preceded by a retirement of the same object by the same thread, and every reader that was
-    inside when the object was retired has left before the disposal *)
+(** every disposal is preceded by a retirement of the same object (by the same thread for general_instant, by any
+    thread for the buffered flavours), and every reader that was inside when the object was retired has left before
+    the disposal *)
 Definition dispose_safe (tr : trace) : Prop :=
   forall w p d, at_ tr d w (is_dispose p) ->
-    exists k, (k < d)%nat /\ at_ tr k w (is_retire p) /\
+    exists k w', (k < d)%nat /\ at_ tr k w' (is_retire p) /\
       forall r s, open_at tr r s k -> exists b, (k < b < d)%nat /\ at_ tr b r is_runlock0.
 
 (** *** basic facts about [at_] *)
@@ -310,7 +311,7 @@ Proof.
   intros Ne H w p d Hd.
   destruct (at_snoc_inv _ _ _ _ _ _ Hd) as [Hd'|(_ & _ & X)]; [|apply is_dispose_any in X; congruence].
   pose proof (at_lt _ _ _ _ Hd') as Ld.
-  destruct (H w p d Hd') as (k & Hk & Hr & Hall). exists k. split; [exact Hk|]. split; [apply at_app_l; exact Hr|].
+  destruct (H w p d Hd') as (k & w' & Hk & Hr & Hall). exists k, w'. split; [exact Hk|]. split; [apply at_app_l; exact Hr|].
   intros r s Ho. destruct (Hall r s) as (b & Hb & Hat).
   - eapply open_at_app_inv; eauto. lia.
   - exists b. split; [exact Hb|]. apply at_app_l; exact Hat.
